@@ -40,6 +40,8 @@ def byteswap_bytearray(data: bytearray) -> bytes:
     :param data:
     :return:
     """
+    # work on a private copy, the caller's bytearray must stay as it was
+    data = bytearray(data)
     trim = len(data)
     last: bytes = bytes()
     # add padding, that will get removed, to not have odd number of bytes
